@@ -225,8 +225,37 @@ def random_unit(job, variant, pi, seed, length):
     return out
 
 
+def reactive_unit(job, variant, seed, per_skill):
+    """rollback onto a command the engine's components REJECT (a skill used again while it cools down), placed right
+    after an action other components react to, and onto the action before it; then time passes and another skill is
+    used.  The play of a rejected use still hands the pending reactions of the previous action to their listeners, so
+    its checkpoint is not the one before it."""
+    rng = random.Random(f"C03:reactive:{seed}:{job}:{variant}")
+    names = [v.name for v in make_engine(job, variant).get_current_viewer()("validity")]
+    out = {"n": 0, "failing": [], "kind": "reactive", "rollbacks": 0, "targets": {"init": 0, "console": 0, "operation": 0}}
+    for s in names:
+        for t in rng.sample(names, min(per_skill, len(names))):
+            head = [("exec", op(rng.choice(["USE", "CAST"]), s)), ("exec", op("USE", s))]
+            if rng.random() < 0.5:
+                head.insert(1, ("exec", op("ELAPSE", time=rng.choice([0.0, 300.0, 1000.0]))))
+            for target in (len(head), len(head) - 1):
+                ops = head + [("rollback", target), ("exec", op("ELAPSE", time=300.0)), ("exec", op("USE", t)),
+                              ("exec", op("ELAPSE", time=1000.0))]
+                out["n"] += 1
+                out["rollbacks"] += 1
+                out["targets"]["operation"] += 1
+                f = check_program(job, variant, ops)
+                if f is not None:
+                    small = shrink_ops(job, variant, ops[: f["step"] + 1], budget_s=8.0)
+                    out["failing"].append({"kind": "rollback-differs", "job": job, "variant": variant,
+                                           "ops": ops_text(small), "failure": check_program(job, variant, small) or f})
+                    if len(out["failing"]) >= 2:
+                        return out
+    return out
+
+
 def any_unit(kind, args):
-    return random_unit(*args) if kind == "rnd" else exhaustive_unit(*args)
+    return random_unit(*args) if kind == "rnd" else reactive_unit(*args) if kind == "react" else exhaustive_unit(*args)
 
 
 def main(ck: Check):
@@ -241,7 +270,7 @@ def main(ck: Check):
     rng = ck.rng
     work_rnd = [(job, v, pi, ck.seed, rng.randint(*rnd_len)) for job in JOBS for v in ([0] if quick else [0, 1])
                 for pi in range(rnd_plans)]
-    stats = {"exhaustive_programs": 0, "random_programs": 0, "rollbacks": 0,
+    stats = {"exhaustive_programs": 0, "random_programs": 0, "reactive_programs": 0, "rollbacks": 0,
              "rollback_targets": {"init": 0, "console": 0, "operation": 0}}
     reqs, expect = [], []
 
@@ -251,7 +280,7 @@ def main(ck: Check):
             if out["done"] < out["total"] // 2:
                 raise TimeoutError(f"only {out['done']}/{out['total']} units finished within the budget")
             return
-        stats["exhaustive_programs" if out["kind"] == "exhaustive" else "random_programs"] += out["n"]
+        stats[{"exhaustive": "exhaustive_programs", "reactive": "reactive_programs"}.get(out["kind"], "random_programs")] += out["n"]
         stats["rollbacks"] += out["rollbacks"]
         for k, v in out["targets"].items():
             stats["rollback_targets"][k] += v
@@ -261,7 +290,9 @@ def main(ck: Check):
         reqs.extend(out.get("reqs", []))
         expect.extend(out.get("expect", []))
 
-    for args, out in pmap(any_unit, [("rnd", a) for a in work_rnd] + [("ex", a) for a in work_ex], ck.budget_s * 0.8):
+    work_react = [(job, 0, ck.seed, 1 if quick else 4) for job in JOBS]
+    for args, out in pmap(any_unit, [("rnd", a) for a in work_rnd] + [("react", a) for a in work_react] +
+                          [("ex", a) for a in work_ex], ck.budget_s * 0.8):
         absorb(args, out)
 
     with ck.locked():
@@ -292,7 +323,7 @@ def main(ck: Check):
                                       "job": ex["job"], "ops": ex["ops"], "first_difference": first,
                                       "driver": None if "ok" in r else r})
 
-    total = stats["exhaustive_programs"] + stats["random_programs"]
+    total = stats["exhaustive_programs"] + stats["random_programs"] + stats["reactive_programs"]
     ck.coverage.update({
         "evaluations": total,
         "distinct_nontrivial": total,
@@ -301,6 +332,8 @@ def main(ck: Check):
                 "fresh reference engine that executed the surviving commands (logs incl. hashes, validity/running/buff/"
                 "keydown/clock views, buffered events; hash chain, sha1 recomputation, get_hash_index of every log); "
                 "(b) seeded random programs (plans generated against the validity view, rollback after ~18% of the commands); "
+                "(c) per job and skill: the skill used, (time passed,) used again -- mostly REJECTED on cooldown --, rollback "
+                "onto the rejected command and onto the one before it, then time passes and another skill is used; "
                 "programs are distinct by construction; all contain at least one executed command",
         "samples": [e["ops"][:14] for e in expect[:2]],
         "exhaustive": False,
